@@ -3,7 +3,7 @@
    imply constructed; the hygiene flag printed after each operation is 0 unless the model reached one of its Abort
    outcomes at that step; "destroy all" reports a balanced ledger. *)
 From Coq Require Import ZArith NArith List Bool Lia.
-From DS Require Import RunnerLib LedgerCore LedgerCoreProofs LedgerKll LedgerKllProofs LedgerTup LedgerTupProofs LedgerFi LedgerFiProofs LedgerDefs LedgerProofs.
+From DS Require Import RunnerLib LedgerCore LedgerCoreProofs LedgerKll LedgerKllProofs LedgerTup LedgerTupProofs LedgerFi LedgerFiProofs LedgerReq LedgerReqProofs LedgerVo LedgerVoProofs LedgerDefs LedgerProofs.
 Import ListNotations.
 Local Open Scope Z_scope.
 
@@ -116,8 +116,11 @@ Section Ops.
   Lemma op_new_ok rs' out : op_new rs a1 a2 a3 a4 e = (rs', out) -> RInv rs' /\ flag_of out = 0.
   Proof.
     unfold op_new. destruct (reg_get rs a1); [fin|].
-    destruct (obj_new a2 a3 a4) as [[ob bad]|] eqn:E1; [|fin].
-    destruct (obj_new_ok a2 a3 a4 ob bad E1) as [Ho ->]. fin. split; auto. apply RInv_set; auto.
+    destruct (a2 =? 3).
+    - destruct (obj_new_req a3 a4 e) as [[ob bad]|] eqn:E1; [|fin].
+      destruct (obj_new_req_ok a3 a4 e ob bad E1) as [Ho ->]. fin. split; auto. apply RInv_set; auto.
+    - destruct (obj_new a2 a3 a4) as [[ob bad]|] eqn:E1; [|fin].
+      destruct (obj_new_ok a2 a3 a4 ob bad E1) as [Ho ->]. fin. split; auto. apply RInv_set; auto.
   Qed.
 
   Lemma op_update_ok rs' out : op_update rs a1 a2 a3 a4 e = (rs', out) ->
